@@ -7,6 +7,7 @@ use crate::algo::floyd_warshall::floyd_warshall_path;
 use crate::algo::{dijkstra, min_spanning_tree, BoundedMeasure, Measure};
 use crate::data::FromElements;
 use crate::graph::{IndexType, NodeIndex, UnGraph};
+use crate::unionfind::UnionFind;
 use crate::visit::{
     Data, EdgeRef, GraphBase, GraphProp, IntoEdgeReferences, IntoEdges, IntoNeighbors,
     IntoNodeIdentifiers, IntoNodeReferences, NodeCompactIndexable, NodeIndexable, Visitable,
@@ -195,6 +196,21 @@ where
         subgraph_edges.contains(&(edge.0, edge.1)) || subgraph_edges.contains(&(edge.1, edge.0))
     });
     graph.retain_nodes(|_, n| subgraph_nodes.contains(&n));
+
+    // The union of the shortest paths may contain cycles: keep a minimum
+    // spanning tree of it (step 4 of Kou's algorithm).
+    let mut forest = UnionFind::<usize>::new(graph.node_bound());
+    let mut edges_by_weight = graph
+        .edge_references()
+        .map(|e| (*e.weight(), e.id(), e.source().index(), e.target().index()))
+        .collect::<Vec<_>>();
+    edges_by_weight.sort();
+    let spanning_edges = edges_by_weight
+        .into_iter()
+        .filter(|&(_, _, a, b)| forest.union(a, b))
+        .map(|(_, id, _, _)| id)
+        .collect::<HashSet<_>>();
+    graph.retain_edges(|_, e| spanning_edges.contains(&e));
 
     let non_terminal_nodes = non_terminal_leaves(&graph, terminals);
     graph.retain_nodes(|_, n| !non_terminal_nodes.contains(&n));
